@@ -189,6 +189,7 @@ func cmdCheck(args []string) {
 			w.knownObl = append(w.knownObl, kf)
 		}
 	}
+	activeProp = *prop
 	runProperty(w, res, *tier == "thorough", *timeout)
 	// classify
 	os.MkdirAll(*replays, 0o755)
